@@ -39,7 +39,7 @@ CONSTANTS
   Addrs = {0}
   SetAddrs = {0}
   LenAddrs = {0}
-  TrailingCommas = {TRUE, FALSE}
+  TrailingCommas = {FALSE}
   LooseMembers = FALSE
 INVARIANTS TreeOK ToksAgree EmitCase
 CHECK_DEADLOCK FALSE
